@@ -64,7 +64,17 @@ func Compress(codec string, payload []byte) ([]byte, error) {
 
 // Decompress inverts Compress and validates: the deflate stream must end
 // cleanly and use all input, the snappy CRC must match.
-func Decompress(codec string, data []byte) ([]byte, error) {
+func Decompress(codec string, data []byte) ([]byte, error) { return decompress(codec, data, true) }
+
+// DecompressLenient is Decompress without the "no bytes after the end of the
+// deflate stream" rule: it rejects exactly what compress/flate (or snappy +
+// CRC) rejects. C07 uses it: the property speaks of blocks "the decompressor
+// rejects", and compress/flate stops at the final block without looking further.
+func DecompressLenient(codec string, data []byte) ([]byte, error) {
+	return decompress(codec, data, false)
+}
+
+func decompress(codec string, data []byte, strictTail bool) ([]byte, error) {
 	switch codec {
 	case "", "null":
 		return data, nil
@@ -75,7 +85,7 @@ func Decompress(codec string, data []byte) ([]byte, error) {
 		if err != nil {
 			return nil, fmt.Errorf("ref: deflate: %w", err)
 		}
-		if br.Len() != 0 {
+		if strictTail && br.Len() != 0 {
 			return nil, fmt.Errorf("ref: %d bytes after the end of the deflate stream", br.Len())
 		}
 		return out, nil
